@@ -29,7 +29,7 @@ Lines (tab separated, after `seq`):
 outcome ∈ ok err panic; only ok / not-ok is compared.  At every `liq.state` line the model state is compared
 with the real projection (DIFF) and the monitors of the property named in `liq.begin` are evaluated on the REAL
 projection (MON).  Monitor names: C04 — escrow_requests pair_escrow farm_custody zero_supply_disabled
-poolcoin_supply repo_invariants; C07 — taken_exact settled_exact cancellable mm_cancel_all.
+poolcoin_supply repo_invariants; C07 — taken_exact settled_exact cancellable mm_cancel_all cancel_all_cancels_all.
 -/
 -- DRIVER: prefix=lq ns=Comdex.Drv.LiqLedger
 namespace Comdex.Drv.LiqLedger
@@ -457,6 +457,29 @@ def monMMCancelAll (prev cur : State) (op : Option Op) (ok : Bool) : Bool :=
   | some (.mmOrder a u p ..) => !ok || allEnded a u p
   | _ => true
 
+/-- `MsgCancelAllOrders`, from the REAL order records before the message: (1) the message is accepted iff the app exists, no
+pair id is 0 or repeated and every named pair exists; (2) after an accepted message every live order of that owner in the
+named pairs (all pairs of the app if none is named) that is not in its placement batch is ended, and every order of the owner
+that is still in its placement batch is exactly as it was. -/
+def monCancelAll (cfg : Cfg) (prev cur : State) (op : Option Op) (ok : Bool) : Bool :=
+  match op with
+  | some (.cancelAll a u ps) =>
+    let accept := (cfg.app? a).isSome && !ps.any (· == 0) && ps.eraseDups.length == ps.length &&
+      ps.all fun p => (prev.pair? a p).isSome
+    if ok != accept then false else
+    !ok || prev.orders.all fun o =>
+      if o.app == a && o.owner == u && o.status.live && (ps.isEmpty || ps.contains o.pair) then
+        match prev.pair? a o.pair with
+        | none => true
+        | some pp =>
+          if o.batch < pp.curBatch then
+            match cur.order? o.key with
+            | none => false
+            | some o' => o'.status == .canceled
+          else cur.order? o.key == some o
+      else true
+  | _ => true
+
 def monitors (st : St) (cur : State) : List String :=
   let prev := st.real
   let m (name : String) (b : Bool) : List String := if b then [] else [name]
@@ -472,6 +495,7 @@ def monitors (st : St) (cur : State) : List String :=
     ++ m "settled_exact" (monEscrowExact st.cfg st.s cur && monFeeFwd st.cfg prev cur)
     ++ m "cancellable" (monCancellable st.cfg prev st.lastOp st.lastOk)
     ++ m "mm_cancel_all" (monMMCancelAll prev cur st.lastOp st.lastOk)
+    ++ m "cancel_all_cancels_all" (monCancelAll st.cfg prev cur st.lastOp st.lastOk)
 
 /-! ### line handler -/
 
